@@ -1,1 +1,334 @@
-//! (reference for threefish: to be written)
+//! Threefish-256/512/1024 after Ferguson, Lucks, Schneier, Whiting, Bellare, Kohno, Callas, Walker,
+//! "The Skein Hash Function Family", version 1.3 (1 Oct 2010): section 3.3 (Threefish), 3.3.1 (MIX functions,
+//! Table 3: permutation pi, Table 4: rotation constants R_{d,j}), 3.3.2 (key schedule, C240), 3.1 (byte <-> word
+//! conversion: little-endian).  Decryption is the inverse, written out here step by step.
+//!
+//! NW = N_w (4, 8, 16) is a const generic; NS = N_r/4 + 1 is the number of subkeys (19, 19, 21).
+//! Notation of the paper: v_{d,i} state before round d, e_{d,i} after the (conditional) subkey addition,
+//! f_{d,i} after the MIX layer, v_{d+1,i} = f_{d,pi(i)}.
+
+/// 3.3.2: "C240 = 0x1BD11BDAA9FC1A22"
+pub const C240: u64 = 0x1BD11BDAA9FC1A22;
+
+/// Table 3: values of the word permutation pi(i)
+pub const PI4: [usize; 4] = [0, 3, 2, 1];
+pub const PI8: [usize; 8] = [2, 1, 4, 7, 6, 5, 0, 3];
+pub const PI16: [usize; 16] = [0, 9, 2, 13, 6, 11, 4, 15, 10, 7, 12, 3, 14, 5, 8, 1];
+
+/// Table 4: rotation constants R_{d mod 8, j}
+pub const R4: [[u32; 2]; 8] = [[14, 16], [52, 57], [23, 40], [5, 37], [25, 33], [46, 12], [58, 22], [32, 32]];
+pub const R8: [[u32; 4]; 8] = [
+    [46, 36, 19, 37],
+    [33, 27, 14, 42],
+    [17, 49, 36, 39],
+    [44, 9, 54, 56],
+    [39, 30, 34, 24],
+    [13, 50, 10, 17],
+    [25, 29, 39, 43],
+    [8, 35, 56, 22],
+];
+pub const R16: [[u32; 8]; 8] = [
+    [24, 13, 8, 47, 8, 17, 22, 37],
+    [38, 19, 10, 55, 49, 18, 23, 52],
+    [33, 4, 51, 13, 34, 41, 59, 17],
+    [5, 20, 48, 41, 47, 28, 16, 25],
+    [41, 9, 37, 31, 12, 47, 44, 30],
+    [16, 34, 56, 51, 4, 53, 42, 41],
+    [31, 44, 47, 46, 19, 42, 44, 25],
+    [9, 48, 35, 52, 23, 31, 37, 20],
+];
+
+/// N_r: "72 rounds for Threefish-256 and Threefish-512, 80 rounds for Threefish-1024"
+pub const fn rounds(nw: usize) -> usize { if nw == 16 { 80 } else { 72 } }
+pub const fn pi(nw: usize, i: usize) -> usize {
+    if nw == 4 { PI4[i] } else if nw == 8 { PI8[i] } else { PI16[i] }
+}
+pub const fn rot(nw: usize, d: usize, j: usize) -> u32 {
+    if nw == 4 { R4[d % 8][j] } else if nw == 8 { R8[d % 8][j] } else { R16[d % 8][j] }
+}
+
+/// MIX_{d,j}: y0 = x0 + x1 mod 2^64, y1 = (x1 <<< R) xor y0
+pub const fn mix(r: u32, x0: u64, x1: u64) -> (u64, u64) {
+    let y0 = x0.wrapping_add(x1);
+    (y0, x1.rotate_left(r) ^ y0)
+}
+/// inverse of MIX: x1 = (y1 xor y0) >>> R, x0 = y0 - x1
+pub const fn inv_mix(r: u32, y0: u64, y1: u64) -> (u64, u64) {
+    let x1 = (y1 ^ y0).rotate_right(r);
+    (y0.wrapping_sub(x1), x1)
+}
+
+/// 3.3.2: subkeys k_{s,i}, 0 <= s <= N_r/4, from the key words k_0..k_{Nw-1} and tweak words t_0, t_1
+pub fn key_schedule<const NW: usize, const NS: usize>(key: &[u64; NW], tweak: &[u64; 2]) -> [[u64; NW]; NS] {
+    assert!((NW == 4 || NW == 8 || NW == 16) && NS == rounds(NW) / 4 + 1);
+    // k_{Nw} = C240 xor k_0 xor ... xor k_{Nw-1};  t_2 = t_0 xor t_1
+    let mut k = [0u64; 17];
+    let mut kn = C240;
+    let mut i = 0;
+    while i < NW {
+        k[i] = key[i];
+        kn ^= key[i];
+        i += 1;
+    }
+    k[NW] = kn;
+    let t = [tweak[0], tweak[1], tweak[0] ^ tweak[1]];
+    let mut sk = [[0u64; NW]; NS];
+    let mut s = 0;
+    while s < NS {
+        let mut i = 0;
+        while i < NW {
+            let base = k[(s + i) % (NW + 1)];
+            sk[s][i] = if i + 3 < NW {
+                base // i = 0 .. Nw-4
+            } else if i == NW - 3 {
+                base.wrapping_add(t[s % 3])
+            } else if i == NW - 2 {
+                base.wrapping_add(t[(s + 1) % 3])
+            } else {
+                base.wrapping_add(s as u64)
+            };
+            i += 1;
+        }
+        s += 1;
+    }
+    sk
+}
+
+/// one round d: subkey addition when d mod 4 = 0, MIX layer, permutation
+pub fn round<const NW: usize, const NS: usize>(sk: &[[u64; NW]; NS], d: usize, v: &[u64; NW]) -> [u64; NW] {
+    let mut e = [0u64; NW];
+    let mut i = 0;
+    while i < NW {
+        e[i] = if d % 4 == 0 { v[i].wrapping_add(sk[d / 4][i]) } else { v[i] };
+        i += 1;
+    }
+    let mut f = [0u64; NW];
+    let mut j = 0;
+    while j < NW / 2 {
+        let (y0, y1) = mix(rot(NW, d, j), e[2 * j], e[2 * j + 1]);
+        f[2 * j] = y0;
+        f[2 * j + 1] = y1;
+        j += 1;
+    }
+    let mut out = [0u64; NW];
+    let mut i = 0;
+    while i < NW {
+        out[i] = f[pi(NW, i)];
+        i += 1;
+    }
+    out
+}
+pub fn inv_round<const NW: usize, const NS: usize>(sk: &[[u64; NW]; NS], d: usize, v: &[u64; NW]) -> [u64; NW] {
+    // undo the permutation: f_{pi(i)} = v_{d+1,i}
+    let mut f = [0u64; NW];
+    let mut i = 0;
+    while i < NW {
+        f[pi(NW, i)] = v[i];
+        i += 1;
+    }
+    let mut e = [0u64; NW];
+    let mut j = 0;
+    while j < NW / 2 {
+        let (x0, x1) = inv_mix(rot(NW, d, j), f[2 * j], f[2 * j + 1]);
+        e[2 * j] = x0;
+        e[2 * j + 1] = x1;
+        j += 1;
+    }
+    let mut out = [0u64; NW];
+    let mut i = 0;
+    while i < NW {
+        out[i] = if d % 4 == 0 { e[i].wrapping_sub(sk[d / 4][i]) } else { e[i] };
+        i += 1;
+    }
+    out
+}
+
+/// ciphertext words c_i = v_{Nr,i} + k_{Nr/4,i}
+pub fn encrypt_with<const NW: usize, const NS: usize>(sk: &[[u64; NW]; NS], p: &[u64; NW]) -> [u64; NW] {
+    let mut v = *p;
+    let mut d = 0;
+    while d < 4 * (NS - 1) {
+        v = round::<NW, NS>(sk, d, &v);
+        d += 1;
+    }
+    let mut i = 0;
+    while i < NW {
+        v[i] = v[i].wrapping_add(sk[NS - 1][i]);
+        i += 1;
+    }
+    v
+}
+pub fn decrypt_with<const NW: usize, const NS: usize>(sk: &[[u64; NW]; NS], c: &[u64; NW]) -> [u64; NW] {
+    let mut v = *c;
+    let mut i = 0;
+    while i < NW {
+        v[i] = v[i].wrapping_sub(sk[NS - 1][i]);
+        i += 1;
+    }
+    let mut d = 4 * (NS - 1);
+    while d > 0 {
+        d -= 1;
+        v = inv_round::<NW, NS>(sk, d, &v);
+    }
+    v
+}
+
+pub fn encrypt_words<const NW: usize, const NS: usize>(key: &[u64; NW], tweak: &[u64; 2], p: &[u64; NW]) -> [u64; NW] {
+    encrypt_with::<NW, NS>(&key_schedule::<NW, NS>(key, tweak), p)
+}
+pub fn decrypt_words<const NW: usize, const NS: usize>(key: &[u64; NW], tweak: &[u64; 2], c: &[u64; NW]) -> [u64; NW] {
+    decrypt_with::<NW, NS>(&key_schedule::<NW, NS>(key, tweak), c)
+}
+
+/// 3.1 BytesToWords: 8 bytes per word, least significant byte first
+pub fn bytes_to_words<const NW: usize>(b: &[u8]) -> [u64; NW] {
+    let mut w = [0u64; NW];
+    let mut i = 0;
+    while i < NW {
+        let mut x = 0u64;
+        let mut j = 8;
+        while j > 0 {
+            j -= 1;
+            x = (x << 8) | b[8 * i + j] as u64;
+        }
+        w[i] = x;
+        i += 1;
+    }
+    w
+}
+pub fn words_to_bytes<const NW: usize>(w: &[u64; NW], b: &mut [u8]) {
+    let mut i = 0;
+    while i < NW {
+        let mut j = 0;
+        while j < 8 {
+            b[8 * i + j] = (w[i] >> (8 * j)) as u8;
+            j += 1;
+        }
+        i += 1;
+    }
+}
+/// byte interface: key 8 NW bytes, tweak 16 bytes, block 8 NW bytes
+pub fn encrypt<const NW: usize, const NS: usize>(key: &[u8], tweak: &[u8; 16], block: &mut [u8]) {
+    let c = encrypt_words::<NW, NS>(&bytes_to_words::<NW>(key), &bytes_to_words::<2>(tweak), &bytes_to_words::<NW>(block));
+    words_to_bytes::<NW>(&c, block);
+}
+pub fn decrypt<const NW: usize, const NS: usize>(key: &[u8], tweak: &[u8; 16], block: &mut [u8]) {
+    let p = decrypt_words::<NW, NS>(&bytes_to_words::<NW>(key), &bytes_to_words::<2>(tweak), &bytes_to_words::<NW>(block));
+    words_to_bytes::<NW>(&p, block);
+}
+
+#[cfg(test)]
+mod tests {
+    extern crate std;
+    use super::*;
+    use std::vec::Vec;
+
+    fn hex(s: &str) -> Vec<u8> {
+        let d: Vec<u8> = s.bytes().filter(|c| !c.is_ascii_whitespace()).map(|c| (c as char).to_digit(16).unwrap() as u8).collect();
+        d.chunks(2).map(|p| p[0] << 4 | p[1]).collect()
+    }
+
+    /// Skein as defined in sections 3.4-3.5 (UBI, configuration block, output) on top of this Threefish, only so
+    /// that the paper's own vectors (Appendix C, which are Skein hashes) anchor the block cipher incl. tweaks.
+    fn ubi<const NW: usize, const NS: usize>(g: &[u64; NW], msg: &[u8], ty: u64) -> [u64; NW] {
+        let nb = 8 * NW;
+        let nblocks = if msg.is_empty() { 1 } else { (msg.len() + nb - 1) / nb };
+        let mut h = *g;
+        for i in 0..nblocks {
+            let mut blk = std::vec![0u8; nb];
+            let lo = i * nb;
+            let hi = core::cmp::min(msg.len(), lo + nb);
+            blk[..hi - lo].copy_from_slice(&msg[lo..hi]);
+            let mut t1 = ty << 56;
+            if i == 0 { t1 |= 1 << 62; }
+            if i == nblocks - 1 { t1 |= 1 << 63; }
+            let t = [hi as u64, t1];
+            let m = bytes_to_words::<NW>(&blk);
+            let c = encrypt_words::<NW, NS>(&h, &t, &m);
+            for k in 0..NW { h[k] = c[k] ^ m[k]; }
+        }
+        h
+    }
+    fn skein<const NW: usize, const NS: usize>(msg: &[u8]) -> Vec<u8> {
+        let nb = 8 * NW;
+        let mut cfg = [0u8; 32];
+        cfg[..4].copy_from_slice(b"SHA3");
+        cfg[4] = 1; // version
+        cfg[8..16].copy_from_slice(&((8 * nb) as u64).to_le_bytes()); // output length in bits
+        let g0 = ubi::<NW, NS>(&[0u64; NW], &cfg, 4);
+        let g1 = ubi::<NW, NS>(&g0, msg, 48);
+        let out = ubi::<NW, NS>(&g1, &0u64.to_le_bytes(), 63);
+        let mut b = std::vec![0u8; nb];
+        words_to_bytes::<NW>(&out, &mut b);
+        b
+    }
+
+    /// Skein 1.3, Appendix C.1-C.3: Skein-256-256, Skein-512-512, Skein-1024-1024 of the one-byte message FF
+    #[test]
+    fn skein_appendix_c() {
+        assert_eq!(skein::<4, 19>(&[0xff]), hex("0B98DCD198EA0E50A7A244C444E25C23DA30C10FC9A1F270A6637F1F34E67ED2"));
+        assert_eq!(
+            skein::<8, 19>(&[0xff]),
+            hex("71B7BCE6FE6452227B9CED6014249E5BF9A9754C3AD618CCC4E0AAE16B316CC8CA698D864307ED3E80B6EF1570812AC5272DC409B5A012DF2A579102F340617A")
+        );
+        assert_eq!(
+            skein::<16, 21>(&[0xff]),
+            hex("E62C05802EA0152407CDD8787FDA9E35703DE862A4FBC119CFF8590AFE79250BCCC8B3FAF1BD2422AB5C0D263FB2F8AFB3F796F048000381531B6F00D85161BC\
+                 0FFF4BEF2486B1EBCD3773FABF50AD4AD5639AF9040E3F29C6C931301BF79832E9DA09857E831E82EF8B4691C235656515D437D2BDA33BCEC001C67FFDE15BA8")
+        );
+    }
+
+    /// Threefish known answers of the Skein reference implementation (as collected in Crypto++ TestVectors/threefish.txt,
+    /// the file /repo/threefish/tests quotes): zero key / zero tweak / zero block, and the counting-pattern vectors
+    #[test]
+    fn threefish_kat() {
+        let mut b = [0u8; 32];
+        encrypt::<4, 19>(&[0u8; 32], &[0u8; 16], &mut b);
+        assert_eq!(b[..], hex("84DA2A1F8BEAEE947066AE3E3103F1AD536DB1F4A1192495116B9F3CE6133FD8")[..]);
+        decrypt::<4, 19>(&[0u8; 32], &[0u8; 16], &mut b);
+        assert_eq!(b, [0u8; 32]);
+
+        let tweak: [u8; 16] = hex("000102030405060708090A0B0C0D0E0F").try_into().unwrap();
+        let key = hex("101112131415161718191A1B1C1D1E1F202122232425262728292A2B2C2D2E2F");
+        let mut b = hex("FFFEFDFCFBFAF9F8F7F6F5F4F3F2F1F0EFEEEDECEBEAE9E8E7E6E5E4E3E2E1E0");
+        let pt = b.clone();
+        encrypt::<4, 19>(&key, &tweak, &mut b);
+        assert_eq!(b, hex("E0D091FF0EEA8FDFC98192E62ED80AD59D865D08588DF476657056B5955E97DF"));
+        decrypt::<4, 19>(&key, &tweak, &mut b);
+        assert_eq!(b, pt);
+
+        let mut b = [0u8; 64];
+        encrypt::<8, 19>(&[0u8; 64], &[0u8; 16], &mut b);
+        assert_eq!(
+            b[..],
+            hex("B1A2BBC6EF6025BC40EB3822161F36E375D1BB0AEE3186FBD19E47C5D479947B7BC2F8586E35F0CFF7E7F03084B0B7B1F1AB3961A580A3E97EB41EA14A6D7BBE")[..]
+        );
+        let key: Vec<u8> = (0x10..0x50).collect();
+        let mut b: Vec<u8> = (0..64).map(|i| 0xff - i as u8).collect();
+        let pt = b.clone();
+        encrypt::<8, 19>(&key, &tweak, &mut b);
+        assert_eq!(
+            b,
+            hex("E304439626D45A2CB401CAD8D636249A6338330EB06D45DD8B36B90E97254779272A0A8D99463504784420EA18C9A725AF11DFFEA10162348927673D5C1CAF3D")
+        );
+        decrypt::<8, 19>(&key, &tweak, &mut b);
+        assert_eq!(b, pt);
+
+        let mut b = [0u8; 128];
+        encrypt::<16, 21>(&[0u8; 128], &[0u8; 16], &mut b);
+        assert_eq!(
+            b[..],
+            hex("F05C3D0A3D05B304F785DDC7D1E036015C8AA76E2F217B06C6E1544C0BC1A90DF0ACCB9473C24E0FD54FEA68057F43329CB454761D6DF5CF7B2E9B3614FBD5A2\
+                 0B2E4760B40603540D82EABC5482C171C832AFBE68406BC39500367A592943FA9A5B4A43286CA3C4CF46104B443143D560A4B230488311DF4FEEF7E1DFE8391E")[..]
+        );
+        decrypt::<16, 21>(&[0u8; 128], &[0u8; 16], &mut b);
+        assert_eq!(b, [0u8; 128]);
+        let key: Vec<u8> = (0x10..0x90).collect();
+        let mut b: Vec<u8> = (0..128).map(|i| 0xff - i as u8).collect();
+        let pt = b.clone();
+        encrypt::<16, 21>(&key, &tweak, &mut b);
+        assert_eq!(b[..16], hex("A6654DDBD73CC3B05DD777105AA849BC")[..]);
+        decrypt::<16, 21>(&key, &tweak, &mut b);
+        assert_eq!(b, pt);
+    }
+}
